@@ -15,7 +15,9 @@
 //!   group document       each operation of the document against the model
 //!   group schema2struct  arbitrary schemas through Query<Dyn> (dynamic-schema device)
 //!
-//! `--mode probe` prints the document and the schemas schemars derives.
+//! `--mode probe` prints the document and the schemas schemars derives;
+//! `--mode selftest` serves endpoints whose document lies (never part of
+//! ./check): every request case of it must be judged a violation.
 mod cases;
 mod doc;
 mod ep;
@@ -35,9 +37,9 @@ pub struct Server {
     pub ops: std::collections::BTreeMap<String, ep::OpInfo>,
 }
 impl Server {
-    pub fn start() -> Server {
+    pub fn start(lies: bool) -> Server {
         let rt = live::rt();
-        let (api, ctx, ops) = ep::build_api();
+        let (api, ctx, ops) = if lies { ep::build_api_lies() } else { ep::build_api() };
         let doc = api.openapi("t", semver::Version::new(1, 0, 0)).json().expect("openapi json");
         let srv = {
             let _g = rt.enter();
@@ -145,7 +147,7 @@ fn gen_all(w: &cases::World, seed: u64, thorough: bool, out: &mut dyn std::io::W
 
 fn main() {
     dsverif::cli::main(|o, replay, out| {
-        let server = Server::start();
+        let server = Server::start(o.mode == "selftest");
         if o.mode == "probe" {
             probe(&server);
         } else {
